@@ -92,6 +92,9 @@ class Peer:
                                          priv_alg=priv,
                                          priv_password=priv_pw if raw_secrets else self._secret(auth, priv_pw, priv_kt, engine_id, priv),
                                          auth_key_type=auth_kt, priv_key_type=priv_kt)
+            if priv == 1:
+                # the content of the DES padding octets is the sender's choice (RFC 3414 8.1.1.2): agents differ, so do ours
+                self.state.pad_style = ("zero", "count", "ff", "random")[(sum(bytes(engine_id)) + len(user) + boots) % 4]
             if getattr(self, "_aligned", False):
                 # (the client is handed the key as typed — possibly short —, the agent works with the aligned one)
                 ks = 16 if auth == 1 else 20
